@@ -452,7 +452,7 @@ class TV:
                 return patom(a)
             return None
 
-        def rename(p, skip=None):
+        def rename(p, skip=None, combos=True):
             ren = {a: keep_atom(a) for a in atoms(p)}
             if all(v is not None for v in ren.values()):
                 return psubst(p, lambda a: ren[a], M)
@@ -468,7 +468,7 @@ class TV:
                 # (eliminate, a few times, a monomial with an unstable atom against a cell whose current value
                 # has that monomial with coefficient +-1)
                 rest, combo = dict(p), {}
-                for _ in range(4):
+                for _ in range(4 if combos else 0):
                     ren = {a: keep_atom(a) for a in atoms(rest)}
                     if all(v is not None for v in ren.values()):
                         q = psubst(rest, lambda a: ren[a], M)
@@ -483,8 +483,13 @@ class TV:
                             if k in wc or k in new.D or k == skip or k in combo:
                                 continue
                             c = pk.get(mono)
-                            if c in (1, M - 1):
-                                step = (k, (coef * c) % M, pk)
+                            if not c:
+                                continue
+                            if c % 2 == 1:
+                                step = (k, (coef * pow(c, -1, M)) % M, pk)     # x with x * c = coef (mod M)
+                                break
+                            if coef % c == 0:
+                                step = (k, coef // c, pk)
                                 break
                         if step:
                             break
@@ -498,7 +503,7 @@ class TV:
             for k, p in st.Cb.items():
                 if k in new.D or (k in wc and not optimistic):
                     continue
-                q = rename(p, skip=k)
+                q = rename(p, skip=k, combos=False)    # cells keep their own atom unless they are another cell + constant
                 if q is not None and q != patom(("c", k)):
                     new.Cb[k] = q; new.Ci[k] = q
         for t, p in st.T.items():
